@@ -146,6 +146,12 @@ def corpus():
     t = [S + b" x\n", b"A\n", b"b\n", b"c\n", b"d\n", b"e\n"]
     o = [S + b" x\n", b"a\n", b"b\n", b"c\n", b"d\n", b"E\n"]
     out.append(_case("merge", b, t, o))
+    # exactly the witness of Theory/TextMerge.v:sentinel_refuted (W_base, W_this, W_other, W_regions)
+    w = _case("merge", [S + b"\n", b"a\n", b"b\n", b"c\n"], [S + b"\n", b"A\n", b"b\n", b"c\n"],
+              [S + b"\n", b"a\n", b"b\n", b"C\n"])
+    if w["regions"] != [["unchanged", 0, 1], ["a", 1, 2], ["unchanged", 2, 3], ["b", 3, 4]]:
+        raise AssertionError("merge3 no longer yields W_regions for the Coq witness: %r" % (w["regions"],))
+    out.append(w)
     # a genuine conflict, every option and action
     b = [b"a\n", b"b\n", b"c\n"]
     t = [b"a\n", b"T\n", b"c\n"]
